@@ -806,6 +806,21 @@ func (w *World) openDB(kind, name string, write []string, peers []int) error {
 		var err error
 		target := name
 		opts := &orbitdb.CreateDBOptions{}
+		if w.reuseOpts {
+			// one options value per peer for every database it opens (the library writes into it)
+			if w.peerOpts == nil {
+				w.peerOpts = map[int]*orbitdb.CreateDBOptions{}
+			}
+			if w.peerOpts[p] == nil {
+				w.peerOpts[p] = &orbitdb.CreateDBOptions{}
+			}
+			opts = w.peerOpts[p]
+			opts.AccessController = nil
+			opts.Overwrite = nil
+			opts.LocalOnly = nil
+			opts.Create = nil
+			opts.StoreType = nil
+		}
 		if i == 0 {
 			opts.AccessController = aclParams(write)
 		} else {
